@@ -11,7 +11,7 @@ is a prefix) + two ties to the real binary:
      was there is still there, every byte string of the workspace is still in the workspace or the
      cache, and re-running the command followed by `xvc file recheck` gives the state of the
      uninterrupted run."""
-import os, re, json, shutil, subprocess, stat, time, hashlib
+import os, re, json, shutil, subprocess, stat, time, hashlib, tempfile
 from concurrent.futures import ThreadPoolExecutor
 from . import common as C, repo as R
 from .xvc import XvcRepo, Result
@@ -107,6 +107,27 @@ def scenarios(rng, tier):
     return scs
 
 
+def other_fs_available():
+    try:
+        return os.path.isdir("/dev/shm") and os.access("/dev/shm", os.W_OK) and os.stat("/dev/shm").st_dev != os.stat(tempfile.gettempdir()).st_dev
+    except OSError:
+        return False
+
+
+def bring_scenarios(rng):
+    """oracle only, both tiers: `bring` into an empty cache with the temporary directory on ANOTHER file system --
+    the downloaded object cannot be renamed into the cache, and a kill inside the cross-device move must not
+    leave a partial object at the cache address"""
+    if not other_fs_available():
+        return []
+    a1, b1 = contents(rng, "a1") * 3000, contents(rng, "b1")          # a.txt: ~20 kB, copied in more than one call
+    setup = [("W", "a.txt", a1), ("W", "b.txt", b1), ("track", None, ["a.txt", "b.txt"]),
+             ("xvc", ["storage", "new", "local", "--name", "L", "--path", "@STORAGE"]), ("xvc", ["file", "send", "--to", "L"]),
+             ("rmcache",), ("D", "a.txt"), ("D", "b.txt")]
+    return [{"name": "bring-other-fs", "setup": setup, "argv": ["file", "bring", "--from", "L"],
+             "paths": ["a.txt", "b.txt"], "tmp_other": True}]
+
+
 # commands outside the model (oracle only; thorough tier): argv after the global options
 def extra_scenarios(rng):
     a1, b1, c1 = contents(rng, "a1"), contents(rng, "b1"), contents(rng, "c1")
@@ -154,6 +175,11 @@ class Template:
         self.sc = sc
         self.repo = XvcRepo(xvc_bin, prefix="c07t", git=False)
         self.xvc_bin = xvc_bin
+        # "tmp_other": the command under test runs with TMPDIR on another file system (tmpfs), so that moving a
+        # downloaded object into the cache cannot be a rename
+        self.shm = None
+        if sc.get("tmp_other"):
+            self.shm = tempfile.mkdtemp(prefix="xvc-verif-c07-", dir="/dev/shm")
         tick = 0
         for st in sc["setup"]:
             if st[0] == "W":
@@ -161,6 +187,14 @@ class Template:
                 self.repo.write(st[1], st[2], mtime_ns=R.BASE_NS + tick * 1_000_000_000)
             elif st[0] == "D":
                 os.unlink(self.repo.path(st[1]))
+            elif st[0] == "xvc":
+                # any other command of the setup; @STORAGE is a directory next to the repository (shared, read only, by the copies)
+                r = self.repo.xvc(*(["--skip-git"] + [os.path.join(self.repo.base, "storage") if x == "@STORAGE" else x for x in st[1]]))
+                if r.failed:
+                    raise RuntimeError("scenario setup failed: %s: %r" % (st, r))
+            elif st[0] == "rmcache":
+                for a_ in R.ALGOS:
+                    C.rm_rf(os.path.join(self.repo.root, ".xvc", a_))
             else:
                 r = self.repo.xvc(*(["--skip-git"] + cmd_argv(st)))
                 if r.failed:
@@ -178,6 +212,8 @@ class Template:
 
     def env(self):
         e = dict(C.BASE_ENV); e.update(self.repo.env)
+        if self.shm:
+            e["TMPDIR"] = self.shm
         return e
 
     def xvc(self, root, *args, timeout=120):
@@ -202,6 +238,8 @@ class Template:
 
     def close(self):
         self.repo.cleanup()
+        if self.shm:
+            C.rm_rf(self.shm)
 
 
 def replay_store(root, name):
@@ -239,6 +277,11 @@ def observe(root):
             for f in fn:
                 full = os.path.join(dp, f)
                 addr = R.parse_cache_path(os.path.relpath(full, xvc))
+                if addr is None and re.fullmatch(r"\..+\.\d+\.tmp", f):
+                    # the temporary name a cross-device move copies to before it renames (rename_or_copy,
+                    # copy_cache_file_for_path: `.<name>.<pid>.tmp`): not a cache address, never read by any command;
+                    # a kill can leave one behind, like the `.tmp-` files of the stores
+                    continue
                 if addr is None:
                     o["objs"]["?" + os.path.relpath(full, xvc)] = ["?", "?", "?", "?"]
                     continue
@@ -784,8 +827,11 @@ def judge(t, w, ref_obs, sc):
     after = strip(observe(w))
     diffs = obs_diff(ref_obs, after)
     if diffs:
+        perm_only = ref_obs["ws"] == after["ws"] and ref_obs["recs"] == after["recs"] and set(ref_obs["objs"]) == set(after["objs"]) and \
+            all(ref_obs["objs"][k][0] == after["objs"][k][0] and ref_obs["objs"][k][3:] == after["objs"][k][3:] for k in ref_obs["objs"])
         bad.append(("rerun-diverges", "re-run + recheck differs from the uninterrupted run: " + "; ".join(diffs[:4])
-                    + ((" [re-run failed: %s]" % (r1.err.strip().split("\n")[0][:120])) if r1.failed else "")))
+                    + ((" [re-run failed: %s]" % (r1.err.strip().split("\n")[0][:120])) if r1.failed else "")
+                    + (" [only-permission-bits]" if perm_only else "")))
     return bad, loads
 
 
@@ -835,9 +881,19 @@ def one_kill(t, sc, canon, full, ref_obs, inject):
                 wb = bytes.fromhex(e[2])
                 if any(len(wb) < len(ob) and ob.startswith(wb) for ob in objbytes) and "crash-during-workspace-copy" not in ks:
                     ks.append("crash-during-workspace-copy")
+        # P34 decided on the state as well: an intact object that is itself writable, or whose directory is (the kill
+        # fell between the move into the cache and the chmod calls that end it, whatever call it preceded)
+        state_p34 = "object-left-writable" not in ks and any(v[0] == "F" and (v[1] == "1" or v[2] == "1") for v in post["objs"].values())
         bad, loads = judge(t, w, ref_obs, sc)
-        return {"inject": inject, "killed": True, "call": raw, "canon": killed, "done": len(done), "classes": ks,
-                "bad": [(cl, what, classify(cl, ks)) for cl, what in bad], "loads": loads}
+        out = []
+        for cl, what in bad:
+            k = classify(cl, ks)
+            # (decided on the state, the class explains a divergence only when nothing but permission bits differs)
+            if k is None and state_p34 and cl == "rerun-diverges" and "[only-permission-bits]" in what:
+                k = "object-left-writable"
+            out.append((cl, what, k))
+        return {"inject": inject, "killed": True, "call": raw, "canon": killed, "done": len(done), "classes": ks + (["object-left-writable"] if state_p34 else []),
+                "bad": out, "loads": loads}
     finally:
         C.rm_rf(d)
 
@@ -906,6 +962,8 @@ def run(chk, replay=None):
             sc["name"] = "corpus:" + f[:-5]
             jobs.append((sc, [tuple(r["input"]["inject"])]))
         for sc in scenarios(rng, tier):
+            jobs.append((sc, None))
+        for sc in bring_scenarios(rng):
             jobs.append((sc, None))
         if tier == "thorough":
             for sc in extra_scenarios(rng):
